@@ -122,7 +122,7 @@ sys.exit(1 if bad else 0)
 '''
 
 
-def task_split(prefix, nsym, arity, nkeys):
+def task_split(prefix, nsym, arity, nkeys, deadline=500):
     """prefix: number of canonical disjoint concrete pair reactions (AB, CD, EF); nsym symbolic reactions of given arity"""
     from chempy import ReactionSystem
 
@@ -162,7 +162,7 @@ def task_split(prefix, nsym, arity, nkeys):
         holder["n"] += 1
         return not bad
 
-    o = explore_and_prove(fn, assum, goal, max_paths=200000, deadline_s=500)
+    o = explore_and_prove(fn, assum, goal, max_paths=1000000, deadline_s=deadline)
     res = dict(engine="Z", functions=[env.describe(ReactionSystem.split), env.describe(ReactionSystem.substance_participation)],
                obligations=o.obligations, discharged=o.discharged, violations=[], inconclusive=o.inconclusive, queries=o.queries,
                paths=o.paths, solver_s=o.solver_s,
@@ -722,7 +722,8 @@ def tasks(tier, seed):
         fam += [(0, 4, 2, 5), (3, 3, 2, 7), (1, 3, 3, 5), (0, 3, 3, 6)]
     for prefix, nsym, arity, nkeys in fam:
         ts.append(dict(id="C15.split.p%d.s%d.a%d.k%d" % (prefix, nsym, arity, nkeys), fn="task_split",
-                       kwargs=dict(prefix=prefix, nsym=nsym, arity=arity, nkeys=nkeys), timeout=900))
+                       kwargs=dict(prefix=prefix, nsym=nsym, arity=arity, nkeys=nkeys, deadline=500 if tier == "quick" else 3000),
+                       timeout=900 if tier == "quick" else 4000))
     ts.append(dict(id="C15.categorize.2rx3", fn="task_categorize", kwargs=dict(nr=2, nkeys=2 if tier == "quick" else 3, hi=2), timeout=900))
     if tier == "thorough":
         ts.append(dict(id="C15.categorize.3rx2", fn="task_categorize", kwargs=dict(nr=3, nkeys=2, hi=1), timeout=1800))
